@@ -8,6 +8,7 @@ func c01Insts(plens []int64, nameLens []int64) []Inst {
 	for _, nl := range nameLens {
 		out = append(out, inst("gateway", "VH_C01_publish", 1, nl, 2, 2, 2))
 	}
+	out = append(out, gwToldInsts()...)
 	return out
 }
 
@@ -17,7 +18,7 @@ func init() {
 		Pkgs:    []string{"gateway", "util"},
 		Quick:   func() []Inst { return c01Insts(cat(rng(0, 3), []int64{8, 248, 249, 250, 251, 7168}), []int64{1, 3}) },
 		Thor:    func() []Inst { return c01Insts(cat(rng(0, 64), rng(245, 258), []int64{1024, 7168}), []int64{0, 1, 2, 3, 4}) },
-		Asserts: []string{"C01.unknown_not_forwarded", "C01.exactly_one", "C01.is_publish", "C01.payload", "C01.flags", "C01.qos", "C01.msgid", "C01.topic", "C01.registry_intact"},
+		Asserts: []string{"C01.unknown_not_forwarded", "C01.exactly_one", "C01.is_publish", "C01.payload", "C01.flags", "C01.qos", "C01.msgid", "C01.topic", "C01.registry_intact", "C01.told_id_stable"},
 		Reach:   []string{"C01.denotes_nothing", "C01.accepted", "C01.refused"},
 		Bounds: map[string]string{
 			"step":     "one handleMqttSn(PUBLISH) from an arbitrary pre-state: client state in {disconnected, active, asleep, awake}, auth on/off, every PUBLISH field symbolic (DUP, QoS 0..3, retain, topic-ID type 0..3, topic ID, message ID, every payload byte)",
@@ -92,12 +93,45 @@ func gwOnePerKind(evs []gwEv, all bool) []gwEv {
 		if _, ok := last[e.kind]; !ok {
 			order = append(order, e.kind)
 		}
+		if e.kind == evMQ+9 && e.arg != 1 {
+			if _, ok := last[e.kind]; ok {
+				continue // SUBACK: the variant with exactly one return code is the meaningful one
+			}
+		}
 		last[e.kind] = e
 	}
 	var out []gwEv
 	for _, k := range order {
 		out = append(out, last[k])
 	}
+	return out
+}
+
+// gwToldInsts: a topic the client registered, then a SUBSCRIBE / broker PUBLISH /
+// REGISTER on a (possibly equal) name, then every broker answer.
+func gwToldInsts() []Inst {
+	var out []Inst
+	for _, c := range [][2]gwEv{
+		{{0x12, 4}, {evMQ + 9, 1}}, {{0x12, 4}, {evTIMER, 0}}, {{0x0A, 5}, {evMQ + 9, 1}}, {{0x0A, 5}, {0x0A, 5}},
+		{{evMQ + 3, 1}, {0x0B, 5}}, {{evMQ + 3, 1}, {evTIMER, 0}},
+	} {
+		out = append(out, inst("gateway", "VH_GW_setup3", 18, c[0].kind, c[0].arg, c[1].kind, c[1].arg))
+	}
+	return out
+}
+
+// gwStepInsts: every event from an arbitrary pre-state, plus the set-ups that register topics.
+func gwStepInsts() []Inst {
+	var out []Inst
+	for _, e := range gwAllEvents(false) {
+		out = append(out, inst("gateway", "VH_GW_step", e.kind, e.arg, 1))
+	}
+	for _, su := range []int64{6, 7, 15, 18} {
+		for _, b := range gwOnePerKind(gwAllEvents(false), false) {
+			out = append(out, inst("gateway", "VH_GW_setup2", su, b.kind, b.arg))
+		}
+	}
+	out = append(out, gwToldInsts()...)
 	return out
 }
 
@@ -112,14 +146,14 @@ func gwInsts(tier string) []Inst {
 		}
 	}
 	// a set-up (transaction in progress, sleeping client, ...) followed by every event
-	for su := int64(1); su <= 17; su++ {
+	for su := int64(1); su <= 18; su++ {
 		for _, b := range gwOnePerKind(gwAllEvents(full), full) {
 			out = append(out, inst("gateway", "VH_GW_setup2", su, b.kind, b.arg))
 		}
 	}
 	if full {
 		// set-up, then a timer expiry or a set-up event, then every event
-		for su := int64(1); su <= 17; su++ {
+		for su := int64(1); su <= 18; su++ {
 			for _, b := range gwAllEvents(false) {
 				out = append(out, inst("gateway", "VH_GW_setup3", su, evTIMER, 0, b.kind, b.arg))
 			}
@@ -196,5 +230,36 @@ func init() {
 			"passthrough": "UNSUBSCRIBE (all topic-ID types), PUBREL, PINGREQ, plain DISCONNECT from the client; PUBREC, PUBCOMP, UNSUBACK, PINGRESP from the broker; message IDs symbolic",
 		},
 		Outside: []string{"SUBSCRIBE with QoS 3 (refused, see C24)", "sleeping-client cases of PINGREQ/PINGRESP (C11, C12)"},
+	})
+}
+
+func c04Insts(full bool) []Inst {
+	out := []Inst{inst("gateway", "VH_C04_init")}
+	cfgs := [][2]int64{{0, 0}, {1, 1}, {2, 0}, {0, 2}}
+	if full {
+		cfgs = append(cfgs, [2]int64{2, 2}, [2]int64{3, 1})
+	}
+	for _, c := range cfgs {
+		out = append(out, inst("gateway", "VH_C04_fresh_step", c[0], c[1]))
+	}
+	for via := int64(0); via <= 3; via++ {
+		out = append(out, inst("gateway", "VH_C04_exhausted", 1, 1, via))
+	}
+	return out
+}
+
+func init() {
+	reg(&Spec{
+		ID: "C04", Pkgs: []string{"gateway", "util"},
+		Quick: func() []Inst { return append(c04Insts(false), gwStepInsts()...) },
+		Thor:  func() []Inst { return append(c04Insts(true), gwInsts("quick")...) },
+		Asserts: []string{"C04.init_fresh", "C04.refusal_means_exhausted", "C04.id_in_range_and_new", "C04.id_not_predefined", "C04.post_state", "C04.last_id",
+			"C04.exhausted_refuses", "C04.no_reassignment", "C04.exhausted_fixed_point", "C04.told_id_stable", "C04.handed_out_id_valid"},
+		Reach: []string{"C04.fresh_refused", "C04.fresh_allocated", "C04.id_handed_out"},
+		Bounds: map[string]string{
+			"induction": "ID counter state Fresh(n) with n symbolic over 1..0xFFFE (covers every session history, however long); predefined topics 0..2 client-specific + 0..2 '*' entries with symbolic IDs (thorough up to 3+1 / 2+2); the wrapped state is reached through the real code and three consecutive refusals are checked up to the fixed point of the counter/handler state",
+			"handed-out IDs": "every REGACK / SUBACK / REGISTER written in any step of the gateway world harness (quick: every event from an arbitrary pre-state + the three set-ups that register topics x every event; thorough: all set-ups) carries an ID in 1..0xFFFE that is not predefined for the client, and no step removes or renames an existing registration",
+		},
+		Outside: []string{"more predefined entries than the bound (the skip loop is unwound once per entry)"},
 	})
 }
